@@ -46,6 +46,11 @@ def cases(tier, seed):
         for h in range(nh):
             out.append({'id': 'w3:%s:%s:%s:%d' % (fam, rate, 'x'.join(map(str, bs)), h), 'file': d,
                         'nops': rng.choice([40, 80]), 'hseed': rng.randrange(1 << 30), 'cost': 4})
+    # a file without stored header arrays (as written with header_detection='strip') whose sample axis does not start at 0
+    d = files.wspec_desc(rng, (6, 7, 20), 4, (4, 4, 512), narr=0, t0=100, version=[0, 2, 9], il=[1, 1], xl=[5, 2])
+    d.pop('f64', None)
+    for h in range(nh):
+        out.append({'id': 'w3:noarrays:%d' % h, 'file': d, 'nops': 40, 'hseed': rng.randrange(1 << 30), 'cost': 2})
     for rate, bs in rng.sample(files.LAYOUTS_2D, 3 if tier == 'quick' else len(files.LAYOUTS_2D)):
         nT = rng.choice([bs[1] + 1, 2 * bs[1] + 3])
         nZ = rng.choice([50, 301]) if bs[2] > 301 else 2 * bs[2] + 1
@@ -132,6 +137,15 @@ def make_history(sp, rng, nops):
         hist += [(o, x) for x in hd[:2] + tf + hd]
     elif mode == 3:
         hist += [(o, ('get_tracefield_1d', (k,))) for k in sp.stored] + [(o, x) for x in hd] + [(o, ('gen_trace_header', (0,), {'load_all_headers': True}))] + [(o, x) for x in tf]
+    if 'C' in objs and not sp.stored:
+        # directed prefix on the converter: a file WITHOUT stored header arrays (every word comes from the header-word table) is exported, then its
+        # trace headers are regenerated through the same object
+        hist += [('C', ('export', ())), ('C', ('gen_trace_header', (0,))), ('C', ('gen_trace_header', (sp.ntr - 1,))), ('C', ('get_tracefield_1d', (109,)))]
+    if not sp.is2d and sp.ntr != sp.grid_traces and 189 in sp.stored:
+        # directed prefix on an irregular file: the inline array loaded with padding first, then a trace (the first request for the hole mask), then headers
+        o_ = rng.choice(['R0', 'R1', 'E'])
+        t_ = rng.randrange(sp.ntr)
+        hist += [(o_, ('get_tracefield_1d', (189,))), (o_, ('get_trace', (t_,))), (o_, ('gen_trace_header', (t_,))), (o_, ('gen_trace_header', (sp.ntr - 1,)))]
     if not sp.is2d:
         # directed prefix on the emulator: a slice / iteration through a line accessor, then single lines through the same accessor
         for name, ax in (('iline', [int(v) for v in sp.ilines()]), ('xline', [int(v) for v in sp.xlines()])):
